@@ -27,6 +27,7 @@ type CheckCfg struct {
 	ShrinkNS   int64  `json:"shrink_ns"` // -rapid.shrinktime; <0: library default
 	NoFailFile bool   `json:"nofailfile,omitempty"`
 	Verbose    bool   `json:"verbose,omitempty"`
+	Log        bool   `json:"log,omitempty"` // -rapid.log: eager output to stdout (the shards' stdout is discarded)
 	FailFile   string `json:"failfile,omitempty"`
 	DebugVis   bool   `json:"debugvis,omitempty"`
 }
@@ -62,6 +63,7 @@ func applyCfg(cfg CheckCfg) {
 	}
 	setFlag("rapid.nofailfile", strconv.FormatBool(cfg.NoFailFile))
 	setFlag("rapid.v", strconv.FormatBool(cfg.Verbose))
+	setFlag("rapid.log", strconv.FormatBool(cfg.Log))
 	setFlag("rapid.failfile", cfg.FailFile)
 	setFlag("rapid.debugvis", strconv.FormatBool(cfg.DebugVis))
 }
